@@ -49,7 +49,7 @@ def corpus():
         case("value", f0, '[1e05, 1E+05, -0.0e-00, 0, -0, 12345678901234567890]', "corpus:numbers"),
         case("value", f0, '"""a \\""" b \\n \\u0041 \\\\ """', "corpus:block-escapes"),
         case("doc", (False, True, True),
-             'fragment F($x: [Int!]! = [1] @a(b: {c: $d})) on T @z { ...G @q ... on U { a: b(c: [{d: null}]) } ... { x } }',
+             'fragment F($x: [Int!]! = [1] @a(b: {c: 2})) on T @z { ...G @q ... on U { a: b(c: [{d: $e}]) } ... { x } }',
              "corpus:kitchen"),
     ]
     return out
@@ -81,6 +81,8 @@ def generate(rng, tier):
         out.append(case("value", rng.choice(G.FLAG_TRIPLES), s, "valid:string"))
         ms, label = G.mutate_text(s, rng)
         out.append(case("value", (False, False, False), ms, "mutant:string-" + label))
+    for _ in range(40 if quick else 1000):
+        out.append(case("value", (False, False, False), G.string_with_break(rng), "mutant:string-linebreak"))
     if not quick:
         for s in G.unicode_escape_shapes():
             out.append(case("value", (False, False, False), s, "enum:unicode-escape"))
